@@ -306,8 +306,11 @@ def run_standalone(c, o):
     elif w == "monotonic":
         from openaerostruct.geometry.monotonic_constraint import MonotonicConstraint
 
-        for var in ("chord", "thickness"):
-            evs.append(dict(cls=MonotonicConstraint, opts=dict(var_name=var, surface=dict(symmetry=sym, mesh=mesh.copy())), inputs={var: rng.uniform(0.5, 2.0, ny)}, outputs={}))
+        # symmetric, full-span with an odd and with an even number of spanwise stations (the constant Jacobian is built per parity)
+        for sym_, ny_ in ((True, ny), (False, ny | 1), (False, (ny | 1) + 1)):
+            for var in ("chord", "thickness"):
+                evs.append(dict(cls=MonotonicConstraint, opts=dict(var_name=var, surface=dict(symmetry=sym_, mesh=np.zeros((nx, ny_, 3)))),
+                                inputs={var: rng.uniform(0.5, 2.0, ny_)}, outputs={}))
     elif w == "multisec":
         from openaerostruct.geometry.geometry_unification import GeomMultiUnification
         from openaerostruct.geometry.geometry_multi_join import GeomMultiJoin
